@@ -126,7 +126,7 @@ func (prop) Describe() core.Description {
 		RealComponents: []string{"encoding/igc (Encoder.Encode, Read and its parser)", "go-geom LineString", "stdlib bufio.Scanner, fmt, regexp, time"},
 		StubComponents: []string{"io.Writer under the encoder (simio.Writer)", "the medium between writer and reader (line and byte edits)", "io.Reader under the decoder (simio.Reader: chunking, stalls incl. unbounded, data+EOF, error at offset, truncation)"},
 		FaultKinds:     []string{"read-split", "read-stall", "read-data+eof", "read-error", "read-truncate", "stall-forever", "line-drop", "line-dup", "line-swap", "line-tear", "line-long", "line-garble", "byte-edit", "write-fail"},
-		Probes:         []string{"probe:year<2000", "probe:year-rollover", "probe:day-rollover", "probe:lat==+-90", "probe:lon==+-180", "probe:alt-clamped", "probe:fractional-second", "probe:I-record", "probe:I-record-extends-B", "probe:B-shorter-than-announced", "probe:line>64KiB", "probe:torn-inside-B", "probe:noise-before-A", "probe:record-errors-returned", "probe:record-errors>16", "probe:prefix-tracks", "probe:encoder-reused", "probe:one-buffer-carries-two-logs", "probe:local-zone-not-utc", "probe:extra-ordinates-nonzero", "probe:first-result-rechecked-after-later-decodes", "probe:headers-checked", "probe:decode-after-an-unrelated-stream", "probe:consecutive-fixes-with-identical-records"},
+		Probes:         []string{"probe:year<2000", "probe:year-rollover", "probe:day-rollover", "probe:lat==+-90", "probe:lon==+-180", "probe:alt-clamped", "probe:fractional-second", "probe:I-record", "probe:I-record-extends-B", "probe:B-shorter-than-announced", "probe:line>64KiB", "probe:torn-inside-B", "probe:noise-before-A", "probe:record-errors-returned", "probe:record-errors>16", "probe:>=3-broken-B-records", "probe:prefix-tracks", "probe:encoder-reused", "probe:one-buffer-carries-two-logs", "probe:local-zone-not-utc", "probe:extra-ordinates-nonzero", "probe:first-result-rechecked-after-later-decodes", "probe:headers-checked", "probe:decode-after-an-unrelated-stream", "probe:consecutive-fixes-with-identical-records"},
 	}
 }
 
@@ -719,6 +719,49 @@ func headerRecords(text []byte, got []igc.Header) string {
 	return ""
 }
 
+// brokenBRecords counts, in a stream that begins with its A record, the lines
+// that begin with B and cannot be a whole fix by the IGC format: shorter than
+// the format's 35 characters, or with something other than a digit or a minus
+// sign in the time, latitude or longitude columns. The last line is left out when the stream does
+// not end in a line feed (it may have been cut).
+func brokenBRecords(text []byte) int {
+	lines := strings.Split(string(text), "\n")
+	first := 0
+	for first < len(lines) && strings.TrimSuffix(lines[first], "\r") == "" {
+		first++
+	}
+	if first == len(lines) || !strings.HasPrefix(lines[first], "A") {
+		return 0
+	}
+	lines = lines[first+1:]
+	if len(lines) > 0 {
+		lines = lines[:len(lines)-1] // what follows the last line feed
+	}
+	n := 0
+	for _, ln := range lines {
+		ln = strings.TrimSuffix(ln, "\r")
+		if !strings.HasPrefix(ln, "B") {
+			continue
+		}
+		if len(ln) < 35 {
+			n++
+			continue
+		}
+		digits := func(from, to int) bool {
+			for _, c := range []byte(ln[from:to]) {
+				if (c < '0' || c > '9') && c != '-' { // (upstream reads a leading minus sign as part of a number: tolerated)
+					return false
+				}
+			}
+			return true
+		}
+		if !digits(1, 7) || !digits(7, 14) || !digits(15, 23) {
+			n++
+		}
+	}
+	return n
+}
+
 var dteLine = regexp.MustCompile(`^HFDTE(\d{6})$`)
 
 // checkHeaders: for a stream whose H records are all of the plain form
@@ -1179,6 +1222,23 @@ func faulty(s *Scenario, log *core.Log) core.Result {
 		if d := headerRecords(text[:delivered], t.Headers); d != "" {
 			res.Fail("headers-differ", "headers-differ:records", "%s; stream:\n%s", d, head(text))
 			return res
+		}
+		// "the list of record errors": one entry for each record that is in
+		// error. B records that cannot be whole fixes by the format itself (too
+		// short, or a character that is neither digit nor sign where time,
+		// latitude or longitude digits belong) are such records, so the list has at least
+		// as many entries as there are of them - counted, like the headers,
+		// only in streams that begin with their A record.
+		if bad := brokenBRecords(text[:delivered]); bad > 0 {
+			var list igc.Errors
+			errors.As(err, &list)
+			if len(list) < bad {
+				res.Fail("errors-not-a-list", "errors-not-a-list:fewer-than-broken-records", "Read returned %d errors for a stream with %d B records that cannot be whole fixes (err=%v); stream:\n%s", len(list), bad, oneLine(fmt.Sprint(err)), head(text))
+				return res
+			}
+			if bad >= 3 {
+				res.Count("probe:>=3-broken-B-records", 1)
+			}
 		}
 	}
 	if n := t.LineString.NumCoords(); n > possibleFixes && len(text) < 60000 {
